@@ -398,8 +398,8 @@ pub fn prop() -> Prop {
             "normalized_path() of the harness (self-tested); the model of a write is replacement of the subtree at the location",
         ],
         subs: vec![
-            Sub { name: "random-locations", kind: Kind::Random { f: random_locations, quick: 12_000, thorough: 600_000, len: 500 } },
-            Sub { name: "random-history", kind: Kind::Random { f: random_history, quick: 12_000, thorough: 600_000, len: 500 } },
+            Sub { name: "random-locations", kind: Kind::Random { f: random_locations, quick: 60_000, thorough: 1_200_000, len: 500 } },
+            Sub { name: "random-history", kind: Kind::Random { f: random_history, quick: 60_000, thorough: 1_200_000, len: 500 } },
         ],
         direct: Some(direct),
         selftest: Some(crate::rfc::selftest),
